@@ -193,8 +193,17 @@ def cmp_case(rng):
     shape = rand_shape(rng, 2, 3)
     D, P = rng.randint(1, 4), rng.randint(1, 3)
     x = rand_coeffs(rng, (D, P) + shape, -1, 1, bits=1) if False else np.round(rand_coeffs(rng, (D, P) + shape, -1, 1) * 2) / 2
-    mode = rng.choice(['equal', 'shift', 'random', 'scalar'])
-    if mode == 'equal':
+    mode = rng.choice(['equal', 'shift', 'random', 'scalar', 'rank'])
+    if mode == 'rank' and len(shape) == 0:
+        mode = 'random'
+    if mode == 'rank':
+        # operands of different rank (a polynomial compared with one of its rows / a scalar polynomial): NumPy broadcasting
+        # within every direction
+        ysh = shape[rng.randint(1, len(shape)):]
+        y = np.round(rand_coeffs(rng, (D, P) + tuple(ysh), -1, 1) * 2) / 2
+        if rng.random() < 0.5:
+            y[0] = x[0].reshape((P, -1) + tuple(ysh)).min(axis=1) - rng.choice([0.0, 0.5])       # a lower bound of every entry
+    elif mode == 'equal':
         y = x.copy()
     elif mode == 'shift':
         y = x + rng.choice([-0.5, 0.5])
@@ -204,8 +213,12 @@ def cmp_case(rng):
         y = np.round(rand_coeffs(rng, (D, P) + shape, -1, 1) * 2) / 2
     # higher coefficients must not matter
     y[1:] = rand_coeffs(rng, y[1:].shape, -3, 3)
+    if rng.random() < 0.2 and x[0].size:
+        # special values in a zeroth coefficient: NumPy's comparisons with nan are all False (so `x <= y` is not `not (x > y)`), inf orders as usual
+        tgt = x if rng.random() < 0.5 else y
+        tgt[0].reshape(-1)[rng.randrange(tgt[0].size)] = rng.choice([float('nan'), float('inf'), float('-inf'), float('nan')])
     return {'op': 'cmp', 'cmp': rng.choice(sorted(CMP)), 'mode': mode, 'D': D, 'P': P, 'x': x, 'y': y,
-            'scalar': rng.choice([-0.5, 0.0, 0.5])}
+            'scalar': rng.choice([-0.5, 0.0, 0.5]), 'swap': rng.random() < 0.5}
 
 
 def cmp_fails(case):
@@ -214,6 +227,14 @@ def cmp_fails(case):
     if case['mode'] == 'scalar':
         got = bool(f(x, case['scalar']))
         want = bool(np.all(f(x.data[0], case['scalar'])))
+    elif case['mode'] == 'rank':
+        sw = case.get('swap')
+        a, b = (y, x) if sw else (x, y)
+        try:
+            got = bool(f(a, b))
+        except Exception as ex:
+            return 'compare-%s-exception: comparing polynomials of shapes %s and %s raised %s' % (case['cmp'], a.shape, b.shape, type(ex).__name__)
+        want = all(bool(np.all(f(a.data[0, p], b.data[0, p]))) for p in range(x.data.shape[1]))
     else:
         got = bool(f(x, y))
         want = bool(np.all(f(x.data[0], y.data[0])))
@@ -328,6 +349,23 @@ def run(ctx):
         f = cmp_fails(case)
         if f:
             ctx.report(case, 'failure', f)
+    # every comparison x every special value (nan, +inf, -inf) in either operand, all other elements satisfying the comparison
+    for cmpn in sorted(CMP):
+        for special in (float('nan'), float('inf'), float('-inf')):
+            for where in ('x', 'y', 'scalar-x'):
+                D, P = ctx.rng.randint(1, 3), ctx.rng.randint(1, 2)
+                x = np.round(rand_coeffs(ctx.rng, (D, P, 3), -1, 1) * 2) / 2
+                y = x.copy()
+                y[0] += {'lt': 1.0, 'le': 0.0, 'gt': -1.0, 'ge': 0.0, 'eq': 0.0}[cmpn]
+                if where == 'scalar-x':
+                    x[0] = 0.0 if cmpn in ('le', 'ge', 'eq') else (-1.0 if cmpn == 'lt' else 1.0)
+                (y if where == 'y' else x)[0, P - 1, 1] = special
+                case = {'op': 'cmp', 'cmp': cmpn, 'mode': 'scalar' if where == 'scalar-x' else 'special', 'D': D, 'P': P, 'x': x, 'y': y, 'scalar': 0.0}
+                ctx.evaluations += 1
+                ctx.count('cmp-special')
+                f = cmp_fails(case)
+                if f:
+                    ctx.report(case, 'failure', f)
     for i in range(100 if ctx.tier == 'quick' else 1000):
         case = plain_case(ctx.rng)
         ctx.evaluations += 1
